@@ -38,10 +38,14 @@ StructWhy(e) ==
   ELSE IF e.at > 0 /\ e.c # Cmds(e.d, e.k)[e.at] THEN <<"cmd", Cmds(e.d, e.k)[e.at]>>
   ELSE <<>>
 Recorded == {CaseOf(T[i]) : i \in 2..Len(T)}
+\* the first exchange slice of a driver lists the exchange kinds the harness walks for that driver: all of ExKinds(d)
+\* (base kinds, payload lengths, target variants)
+Walked == {S.kinds[i] : i \in 1..Len(S.kinds)}
 CoverWhy ==
   LET want == SliceCases(S.d, S.k, S.tier) IN
   IF Recorded # want THEN <<"coverage", Cardinality(want \ Recorded), Cardinality(Recorded \ want)>>
   ELSE IF Cardinality(Recorded) # Len(T) - 1 THEN <<"duplicate-cases">>
+  ELSE IF "kinds" \in DOMAIN S /\ Walked # ExKinds(S.d) THEN <<"kinds", ExKinds(S.d) \ Walked, Walked \ ExKinds(S.d)>>
   ELSE <<>>
 \* S.cover = FALSE only for --replay of a single stored case
 Struct == StructWhy(Ev) = <<>> /\ (l = 1 /\ S.cover => CoverWhy = <<>>)
